@@ -5,7 +5,6 @@ Import ListNotations.
 From Osmo Require Import Base.DecModel C05.Model C05.Proofs C02.Model.
 Open Scope Z_scope.
 
-Definition ind (c : bool) (v : Z) : Z := if c then v else 0.
 
 (* ------------------------------------------------------------------ denom -> amount lists *)
 Lemma has_key_add_to : forall l d delta x, has_key (add_to l d delta) x = has_key l x.
@@ -61,69 +60,6 @@ Proof.
   rewrite (Z.eqb_sym x k). destruct (k =? x) eqn:E.
   - apply Z.eqb_eq in E; subst. rewrite IH by assumption. rewrite lookup_no_key by assumption. unfold ind; lia.
   - rewrite IH by assumption. unfold ind; lia.
-Qed.
-
-(* ------------------------------------------------------------------ accounts and the bank *)
-Lemma acct_eqb_eq : forall a b, acct_eqb a b = true <-> a = b.
-Proof.
-  destruct a, b; simpl; split; intro H; try discriminate; try reflexivity;
-    try (apply Z.eqb_eq in H; subst; reflexivity); try (inversion H; apply Z.eqb_refl).
-Qed.
-Lemma acct_eqb_refl : forall a, acct_eqb a a = true.
-Proof. intro; apply acct_eqb_eq; reflexivity. Qed.
-Lemma acct_eqb_neq : forall a b, acct_eqb a b = false <-> a <> b.
-Proof.
-  intros; split; intro H.
-  - intro E; subst. rewrite acct_eqb_refl in H; discriminate.
-  - destruct (acct_eqb a b) eqn:E; [apply acct_eqb_eq in E; contradiction|reflexivity].
-Qed.
-Lemma acct_eqb_sym : forall a b, acct_eqb a b = acct_eqb b a.
-Proof.
-  intros. destruct (acct_eqb a b) eqn:E.
-  - apply acct_eqb_eq in E; subst. symmetry; apply acct_eqb_refl.
-  - symmetry. apply acct_eqb_neq. apply acct_eqb_neq in E. congruence.
-Qed.
-
-Definition at_ (a a0 : acct) (x d : Z) : bool := acct_eqb a a0 && (x =? d).
-
-Lemma bal_set_spec : forall b a0 d v a x, bal_set b a0 d v a x = if at_ a a0 x d then v else b a x.
-Proof. reflexivity. Qed.
-
-Lemma bank_move_spec : forall b from to d amt b',
-  bank_move b from to d amt = Ok b' ->
-  amt <= b from d /\
-  forall a x, b' a x = b a x + ind (at_ a to x d) amt - ind (at_ a from x d) amt.
-Proof.
-  unfold bank_move; intros. destruct (b from d <? amt) eqn:E; [discriminate|]. apply Z.ltb_ge in E.
-  inversion H; subst; clear H. split; [assumption|]. intros.
-  rewrite !bal_set_spec. unfold at_, ind.
-  destruct (x =? d) eqn:Ex; [apply Z.eqb_eq in Ex; subst x|rewrite !andb_false_r; lia].
-  rewrite !andb_true_r.
-  destruct (acct_eqb a to) eqn:Et; destruct (acct_eqb a from) eqn:Ef;
-    try (apply acct_eqb_eq in Et; subst a); try (apply acct_eqb_eq in Ef; subst);
-    rewrite ?acct_eqb_refl, ?Z.eqb_refl; cbn [andb]; try lia.
-  - rewrite Ef. cbn [andb]. lia.
-Qed.
-
-Lemma send_raw_spec : forall b from to d amt b',
-  send_raw b from to d amt = Ok b' ->
-  0 < amt /\ amt <= b from d /\
-  forall a x, b' a x = b a x + ind (at_ a to x d) amt - ind (at_ a from x d) amt.
-Proof.
-  unfold send_raw; intros. destruct (amt <=? 0) eqn:E; [discriminate|]. apply Z.leb_gt in E.
-  apply bank_move_spec in H. tauto.
-Qed.
-
-Lemma send_new_spec : forall b from to d amt b',
-  send_new b from to d amt = Ok b' ->
-  0 <= amt /\
-  forall a x, b' a x = b a x + ind (at_ a to x d) amt - ind (at_ a from x d) amt.
-Proof.
-  unfold send_new; intros. destruct (amt =? 0) eqn:E0.
-  - apply Z.eqb_eq in E0; subst. inversion H; subst. split; [lia|]. intros. unfold ind.
-    destruct (at_ a to x d), (at_ a from x d); lia.
-  - destruct (amt <? 0) eqn:E1; [discriminate|]. apply Z.ltb_ge in E1.
-    apply bank_move_spec in H. split; [lia|tauto].
 Qed.
 
 Lemma send_coins_spec : forall coins b from to b',
